@@ -224,7 +224,14 @@ class HMF(object):
         """
         numerator = np.dot(self.spectra*self.invvar, self.g.T)
         denominator = np.dot(np.dot(self.a, self.g)*self.invvar, self.g.T)
-        return self.a*(numerator/denominator)
+        #
+        # The denominator vanishes only where the coefficients are already
+        # zero (e.g. a spectrum that is zero everywhere): they stay zero,
+        # 0/0 would turn every coefficient and component into NaN.
+        #
+        ratio = np.zeros(numerator.shape, dtype=numerator.dtype)
+        np.divide(numerator, denominator, out=ratio, where=(denominator != 0))
+        return self.a*ratio
 
     def gstepnn(self):
         """Non-negative update for component spectra at fixed coefficients.
